@@ -454,12 +454,17 @@ class ScopeTables:
         return 'unknown' if d is None else self.scope_of(f, d, depth)
 
     # ---- table calls
-    def table_of(self, call):
-        """(field, base expression) if the first argument of a hashmap_* call is `&<Scope *>->field`"""
+    def table_of(self, call, f=None):
+        """(field, base expression) if the first argument of a hashmap_* call is `&<Scope *>->field` (directly, or through a local that is
+        set once to such an address)"""
         a = call.args()
         if not a:
             return None
         t = a[0].strip_all()
+        if f is not None and self.is_local(f, t) and t.ref_kind == 'VarDecl':
+            ds = self._defs[f].get(t.ref_id, [])
+            if len(ds) == 1 and ds[0] is not None:
+                t = ds[0].strip_all()
         if t.kind == 'UnaryOperator' and t.opcode == '&':
             m = t.inner[0].strip()
             if m.kind == 'MemberExpr' and m.inner and _tname(m.inner[0].strip().dtype if m.d.get('isArrow') else None) == self.ptr:
@@ -469,7 +474,7 @@ class ScopeTables:
     def table_calls(self, f, op):
         out = []
         for c in self.fns[f].calls(tuple(k for k, v in TABLE_FNS.items() if v == op)):
-            t = self.table_of(c)
+            t = self.table_of(c, f)
             if t is not None:
                 out.append((c, t[0], self.scope_of(f, t[1])))
         return out
@@ -483,7 +488,7 @@ class ScopeTables:
         if e.kind == 'CallExpr':
             cal = e.callee()
             if TABLE_FNS.get(cal) == 'get':
-                t = self.table_of(e)
+                t = self.table_of(e, f)
                 return (self.scope_of(f, t[1]), t[0], cal) if t else None
             if cal in self.lookup_kind:
                 k, field, src = self.lookup_kind[cal]
